@@ -2,9 +2,11 @@
       C11_arguments          an aggregate is evaluated on the values of ALL its arguments; the first argument
                              that fails makes the aggregate fail (no panic: C01)
       C11_empty              avg() is the literal 0; every other aggregate with no argument is not well-formed
-      C11_i64_order          eval_i64 min / max / avg / med / gcd do not depend on the order of the arguments
-      C11_i64_min / gcd      min is the least argument; gcd is Z.gcd folded over the magnitudes (Err only when it
-                             does not fit), for every arity >= 1; med is the middle of the sorted vector
+      C11_i64_order          eval_i64 min / max / avg / med / gcd / lcm do not depend on the order of the arguments
+      C11_i64_min / max / gcd / lcm / avg_med
+                             min / max are the least / greatest argument; gcd and lcm are Z.gcd / Z.lcm folded over the
+                             magnitudes (Err exactly when the value does not fit i64; lcm with a zero argument is 0), for every
+                             arity >= 1; avg and the even-count med are the truncated quotients; med is the middle of the sorted vector
       C11_sorting            the insertion sort of the models returns a sorted permutation of its input and
                              depends only on the multiset of keys
       C11_f64_med_order      eval_f64 med / median does not depend on the order of the arguments (any values, NaN
@@ -51,12 +53,13 @@ Qed.
 Print Assumptions C11_empty.
 
 Theorem C11_i64_order :
-  forall g vs vs', g <> ALcm -> Forall (fun v => in_i64 v = true) vs -> Permutation vs vs' ->
+  forall g vs vs', Forall (fun v => in_i64 v = true) vs -> Permutation vs vs' ->
     agg_i64 g vs = agg_i64 g vs'.
 Proof.
-  intros g vs vs' Hl Hr P. destruct g; try congruence;
+  intros g vs vs' Hr P. destruct g;
     try (apply agg_i64_perm; [discriminate|discriminate|assumption]).
-  now apply agg_gcd_perm.
+  - now apply agg_gcd_perm.
+  - now apply agg_lcm_perm.
 Qed.
 Print Assumptions C11_i64_order.
 
@@ -65,6 +68,32 @@ Theorem C11_i64_min :
     agg_i64 AMin vs = Ok r -> In r vs /\ Forall (fun v => r <= v) vs.
 Proof. exact agg_min_value. Qed.
 Print Assumptions C11_i64_min.
+
+Theorem C11_i64_max :
+  forall vs r, Forall (fun v => in_i64 v = true) vs -> vs <> [] ->
+    agg_i64 AMax vs = Ok r -> In r vs /\ Forall (fun v => v <= r) vs.
+Proof. exact agg_max_value. Qed.
+Print Assumptions C11_i64_max.
+
+(** avg is the sum divided by the count, med of an even count the mean of the two middle values: both truncated toward zero *)
+Theorem C11_i64_avg_med :
+  (forall v vs, agg_i64 AAvg (v :: vs) = Ok (Z.quot (fold_left Z.add (v :: vs) 0) (Z.of_nat (length (v :: vs))))) /\
+  (forall vs, vs <> [] -> Nat.even (length vs) = true ->
+     agg_i64 AMed vs = (let* a := index (sortZ vs) (Nat.div2 (length vs)) in
+                        let* b := index (sortZ vs) (Nat.div2 (length vs) - 1) in Ok (Z.quot (a + b) 2))) /\
+  (forall vs, Nat.even (length vs) = false -> agg_i64 AMed vs = index (sortZ vs) (Nat.div2 (length vs))).
+Proof.
+  split; [reflexivity|]. split.
+  - intros vs Hne He. unfold agg_i64. rewrite He. destruct vs; [congruence|reflexivity].
+  - intros vs He. unfold agg_i64. now rewrite He.
+Qed.
+Print Assumptions C11_i64_avg_med.
+
+Theorem C11_i64_lcm :
+  forall vs, Forall (fun v => in_i64 v = true) vs ->
+    agg_i64 ALcm vs = if existsb (Z.eqb 0) (map Z.abs vs) then Ok 0 else of_option (fit (list_lcm vs)).
+Proof. exact agg_lcm_value. Qed.
+Print Assumptions C11_i64_lcm.
 
 Theorem C11_i64_gcd :
   forall vs, Forall (fun v => in_i64 v = true) vs -> agg_i64 AGcd vs = of_option (fit (list_gcd vs)).
